@@ -55,6 +55,7 @@ type MCConfig struct {
 	OptSets      []OptSet
 	Entrypoints  bool // every rule also as Entrypoint (first flag set only)
 	Compare      int
+	DebugOptEvery int // option sets that include Debug use every n-th input only (0/1 = all)
 	DebugEvery   int // every n-th input additionally under Debug(true) for the position-purity monitor (0 = never)
 	NonTrivial   func(m *ref.Result) bool
 	Sig          func(g *gast.Grammar, in []byte, m *ref.Result, field string) []string
@@ -146,6 +147,9 @@ func (c *Ctx) mcChunk(cfg *MCConfig, gs []*gast.Grammar, base int, rng *rand.Ran
 					id := fmt.Sprintf("%s/%d/%d/%d", u.Pkg, ii, oi, ei)
 					mc := &mon.Case{ID: id, Pkg: u.Pkg, Input: in, File: os.File, Entry: en, AllowInvalid: os.AllowInvalid,
 						NoRecover: os.NoRecover, MaxExpr: os.MaxExpr, MaxEvents: 4000, Memo: os.Memo, Debug: os.Debug, Stats: os.Stats}
+					if os.Debug && cfg.DebugOptEvery > 1 && ii%cfg.DebugOptEvery != 0 {
+						continue // Debug(true) runs are I/O heavy: option sets with Debug take every n-th input
+					}
 					if (os.Memo || os.Debug || os.Stats) && u.HasFlag("-optimize-parser") {
 						continue // these options do not exist in optimized parsers
 					}
@@ -413,9 +417,19 @@ func compareModel(mask int, cs *mcCase, r *mon.Result, m *ref.Result) []diff {
 			}
 			seen[k] = true
 		}
-		bound := uint64(cs.u.G.NExprs) * uint64(len(cs.in)+1)
-		if r.ExprCnt > bound {
-			ds = append(ds, diff{"memo-bound", fmt.Sprintf("<= %d evaluations (%d expressions x (%d+1))", bound, cs.u.G.NExprs, len(cs.in)), r.ExprCnt})
+		// evaluations = expression entries in the parser's own Debug trace (cache hits print nothing;
+		// Stats.ExprCnt also counts the hits since they are charged to the budget)
+		if r.Dbg != nil {
+			evals := 0
+			for k, n := range r.Dbg.Kinds {
+				if strings.HasPrefix(k, "parse") && k != "parseRule" && (strings.HasSuffix(k, "Expr") || strings.HasSuffix(k, "Matcher")) {
+					evals += n
+				}
+			}
+			bound := cs.u.G.NExprs * (len(cs.in) + 1)
+			if evals > bound {
+				ds = append(ds, diff{"memo-bound", fmt.Sprintf("<= %d evaluations (%d expressions x (%d+1))", bound, cs.u.G.NExprs, len(cs.in)), evals})
+			}
 		}
 	}
 	if mask&CmpErrTypes != 0 {
